@@ -15,7 +15,7 @@ pub struct C14 {
 
 const TEMPS: [Reg; 7] = [5, 6, 7, 28, 29, 30, 31];
 const SAVEDS: [Reg; 12] = [8, 9, 18, 19, 20, 21, 22, 23, 24, 25, 26, 27];
-const LABEL_POOL: [&str; 8] = [
+const LABEL_POOL: [&str; 12] = [
     "f",
     "Func_2",
     "zz_top9",
@@ -24,6 +24,10 @@ const LABEL_POOL: [&str; 8] = [
     "aVeryLongLabelName_0123456789",
     "_x",
     "Q",
+    "__init",
+    "X9z",
+    "a",
+    "zzzz",
 ];
 
 /// all injective assignments of `slots.len()` slots to `class` (as index vectors)
@@ -121,13 +125,28 @@ impl Property for C14 {
             let m: BTreeMap<Reg, Reg> = s_used.iter().take(3).zip(a.iter()).map(|(r, k)| (*r, SAVEDS[*k])).collect();
             variants.push(("saved".into(), m, BTreeMap::new()));
         }
-        // labels: every injective renaming for <= 3 labels, else rotations and reflections of the pool
-        if labels.len() <= 3 {
+        // labels: every injective renaming for <= 2 labels; for more labels every single
+        // substitution (each label takes each pool name while the others keep a fixed other
+        // name) plus the rotations and reflections of the pool
+        if labels.len() <= 2 {
             for a in injections(labels.len(), LABEL_POOL.len()) {
                 let m: BTreeMap<String, String> = labels.iter().zip(a.iter()).map(|(l, k)| (l.clone(), LABEL_POOL[*k].to_string())).collect();
                 variants.push(("labels".into(), BTreeMap::new(), m));
             }
         } else if labels.len() <= LABEL_POOL.len() {
+            for (li, l) in labels.iter().enumerate() {
+                for name in LABEL_POOL {
+                    // the other labels take pool names in order, skipping `name`
+                    let mut others = LABEL_POOL.iter().filter(|n| **n != name);
+                    let m: BTreeMap<String, String> = labels
+                        .iter()
+                        .enumerate()
+                        .map(|(i, x)| (x.clone(), if i == li { name.to_string() } else { others.next().unwrap_or(&"spare").to_string() }))
+                        .collect();
+                    let _ = l;
+                    variants.push(("labels".into(), BTreeMap::new(), m));
+                }
+            }
             for rot in 0..LABEL_POOL.len() {
                 for rev in [false, true] {
                     let m: BTreeMap<String, String> = labels
@@ -217,7 +236,7 @@ impl Property for C14 {
     }
     fn info(&self, tier: Tier) -> Info {
         Info {
-            rule: "templates = program pool (every 499th / 41st member of the quick S family, clean and with each injected violation); for each template the full orbit of the temporaries it mentions (every injective assignment of up to 3 t-slots to t0-t6: up to 210), the full orbit of its saved registers (up to 3 s-slots to s0-s11: up to 1320), and label renamings from a pool of 8 identifiers differing in length, case, digits and underscores (all injective maps for <= 3 labels, else 16 rotations/reflections): the diagnostics of the renamed program, positions compared by (statement index, operand role) and registers mapped back, must equal the template's. Non-trivial = templates that draw at least one diagnostic".into(),
+            rule: "templates = program pool (every 499th / 41st member of the quick S family, clean and with each injected violation); for each template the full orbit of the temporaries it mentions (every injective assignment of up to 3 t-slots to t0-t6: up to 210), the full orbit of its saved registers (up to 3 s-slots to s0-s11: up to 1320), and label renamings from a pool of 12 identifiers differing in length, case, digits, leading underscores and sort order (all injective maps for <= 2 labels; otherwise every single substitution - each label takes each pool name - plus 24 rotations/reflections): the diagnostics of the renamed program, positions compared by (statement index, operand role) and registers mapped back, must equal the template's. Non-trivial = templates that draw at least one diagnostic".into(),
             bounds: json!({"templates": self.pool(tier).count(), "t_class": 7, "s_class": 12, "label_pool": LABEL_POOL}),
             assumptions: vec!["canonical hash-order schedule; dependence on label hash order is C10's subject".into()],
             states_counter: "templates",
